@@ -20,7 +20,7 @@ EXPLANATION = (
     "name - R8 - are followed to their consumer).")
 ASSUMPTIONS = ["program_options::variables_map::count(k) > 0 iff option k was given", "${ENV:default} placeholders in the default ini are expanded by the ini module from the environment"]
 THOROUGH_CONFIGS = [["-UNDEBUG", "-DPIKA_DEBUG"]]
-FLOORS = {"C16.R11": 1, "C16.R12": 8, "C16.R1": 11, "C16.R2": 10, "C16.R3": 8, "C16.R4": 3, "C16.R6": 1, "C16.R7": 1, "C16.R8": 1, "C16.R9": 8, "C16.R10": 1, "C16.R13": 5, "C16.R14": 12}
+FLOORS = {"C16.R11": 1, "C16.R12": 8, "C16.R1": 11, "C16.R2": 10, "C16.R3": 8, "C16.R4": 3, "C16.R6": 1, "C16.R7": 1, "C16.R8": 1, "C16.R9": 8, "C16.R10": 1, "C16.R13": 5, "C16.R14": 12, "C16.R15": 1, "C16.R16": 6}
 
 SETTINGS = [  # (command line option, ini key, environment variable, handler)
     ("pika:threads", "pika.os_threads", "PIKA_THREADS", "handle_num_threads"),
@@ -80,6 +80,10 @@ def run(rep, tier):
              "same name, and no full name is a prefix of a name tested before it (prefix tests accept abbreviations, so order decides)")
     rep.rule("C16.R7", "K4 (must-check, may-analysis): the resolved worker count is the one the runtime uses - the resource partitioner's setup_pools reaches its exit only over the "
              "'equal' edge of a comparison between the threads assigned to the pools and pika.os_threads (or with over-subscription allowed)")
+    rep.rule("C16.R16", "K8 (sibling handlers agree on invalid text): a numeric setting that has an environment placeholder in the default table is converted with a conversion "
+             "that reports text that is not a number. manage_config::get_value<T>(key, d) and get_entry_as<T>(cfg, key, d) convert with from_string(text, d), which answers d "
+             "for any text that does not parse; a handler may use them for such a setting only after the same text went through the reporting from_string(text) "
+             "(as handle_num_threads does for pika.os_threads). Otherwise --pika:ini=<key>=abc / PIKA_<KEY>=abc is ignored while the command-line twin rejects it")
     rep.rule("C16.R4", "K2: prepend_options puts PIKA_COMMANDLINE_OPTIONS before argv; preliminary parse + handle_arguments precede reconfigure")
 
     PC = facts(rep, lib("command_line_handling", "src/parse_command_line.cpp"), [r"^pika::detail::"])
@@ -146,6 +150,34 @@ def run(rep, tier):
     from .common import stack_size_cache_rule
     stack_size_cache_rule(rep, "C16.R14")
 
+    # ---- R15: where the entry function's argv comes from
+    rep.rule("C16.R15", "K8 (origin of the entry function's arguments): the strings handed to the user's entry function are the process's own argument strings. They are not the "
+             "result of tokenising a text again (split_unix / split_winmain: quotes and backslashes are interpreted) and are not read back from a configuration entry "
+             "(get_config_entry: ${...} / $[...] are expanded on the way in): an encoder that is the exact inverse of both would be needed for the arguments to arrive unchanged")
+    IH = facts(rep, lib("init_runtime", "src/init_runtime.cpp"), [r"^pika::detail::init_helper$"])
+    ihs = [f for f in IH.find(r"^pika::detail::init_helper$") if f.parent == -1]
+    if len(ihs) != 1:
+        raise AnalysisBroken("init_runtime.cpp: init_helper not found")
+    ih = ihs[0]
+    from engine.kinds import derives_from
+    fcalls = [(b, i, e) for b, i, e in ih.all_events() if e.get("k") == "call" and e.get("recv") is not None and P(e["recv"]) in set(p_["name"] for p_ in ih.params) and len(e.get("args", [])) == 2]
+    if not fcalls:
+        raise AnalysisBroken("init_helper: the call of the entry function was not found")
+    for b, i, e in fcalls:
+        vec = re.match(r"^(\w+)", T(strip(e["args"][1])))
+        vec = vec.group(1) if vec else None
+        srcs = [x.get("rhs") for _, _, x in ih.all_events() if x.get("k") == "write" and x.get("rhs") is not None and vec and T(x["lhs"]).startswith(vec + "[") and T(x["rhs"]) != "nullptr"]
+        srcs.append(e["args"][1])
+        retok = [t for t in srcs if derives_from(ih, t, lambda txt: re.search(r"\bsplit_(unix|winmain)\(", txt) is not None)]
+        reread = [t for t in srcs if derives_from(ih, t, lambda txt: "get_config_entry(" in txt)]
+        if retok or reread:
+            rep.bad("C16.R15", ih, loc_of(e), "entry-argv-reparsed", "init_helper hands the entry function strings that %s: the command line is rebuilt as one text "
+                    "(reconstruct_command_line / encode_and_enquote), stored in the configuration entry pika.reconstructed_cmd_line and tokenised again here; the "
+                    "encoding is not the inverse of the expansion and the tokeniser" % " and ".join(
+                        ([("come out of split_unix/split_winmain (%s)" % T(retok[0])[:40])] if retok else []) + ([("were read back from a configuration entry")] if reread else [])))
+        else:
+            rep.ok("C16.R15", ih, "the entry function's argv is not re-tokenised text")
+
     # O: registered options
     O = set()
     for fn in PC.fns:
@@ -173,6 +205,55 @@ def run(rep, tier):
             D.setdefault(section + "." + m.group(1), []).append(m.group(2))
     if len(D) < 20:
         raise AnalysisBroken("default ini table not found (%d keys)" % len(D))
+    # ---- R16: numeric settings and text that is not a number
+    helpers = {}
+    for hname in ("manage_config::get_value", "get_entry_as"):
+        hs = [f for f in CL.fns if f.qname.endswith(hname) and f.pattern]
+        if not hs:
+            raise AnalysisBroken("helper %s not found in command_line_handling.cpp's unit" % hname)
+        dflt = False
+        for f in hs:
+            pn = [p_["name"] for p_ in f.params][-1] if f.params else None
+            for b, i, e in f.all_events():
+                if e.get("k") == "call" and callee_short(e) == "from_string" and len(e.get("args", [])) == 2 and pn and T(strip(e["args"][1])) == pn:
+                    dflt = True
+        helpers[hname.rsplit("::", 1)[-1]] = dflt
+    n16 = 0
+    for fn in CL.fns:
+        if fn.pattern or fn.parent != -1 or not fn.file.endswith("command_line_handling.cpp"):
+            continue
+        reads = [(b, i, e) for b, i, e in fn.all_events() if e.get("k") == "call" and callee_short(e) in helpers and e.get("type") and "basic_string" not in e["type"]]
+        seen16 = set()
+        for b, i, e in reads:
+            lits = [l for l in literals(e) if l.startswith("pika.")]
+            if not lits:
+                continue
+            key = lits[0]
+            if not any(v.startswith("${PIKA_") for v in D.get(key, [])) or (key, callee_short(e)) in seen16:
+                continue
+            seen16.add((key, callee_short(e)))
+            n16 += 1
+            # validated: the same key read as text in this function and handed to the reporting from_string
+            from engine.kinds import reaching_defs as _rd16, reaches as _re16
+            sdecl = {}
+            for bb, ii, x in fn.all_events():
+                if x.get("k") == "decl" and x.get("init") is not None and key in literals(x) and re.search(r"basic_string|std::string", str(x.get("type")) + " " + str(x.get("rec"))):
+                    sdecl[x.get("var")] = (bb, ii)
+            validated = False
+            for bb, ii, x in fn.all_events():
+                if x.get("k") == "call" and callee_short(x) == "from_string" and len(x.get("args", [])) == 1 and T(strip(x["args"][0])) in sdecl:
+                    v_ = T(strip(x["args"][0]))
+                    if _rd16(fn, v_, (bb, ii)) == frozenset([sdecl[v_]]) and ((bb == b and ii < i) or _re16(fn, bb, b)):
+                        validated = True
+            if not helpers[callee_short(e)] or validated:
+                rep.ok("C16.R16", fn, "%s: %s is converted by a conversion that reports invalid text%s" % (fn.qname.rsplit("::", 1)[-1], key, " (validated as text first)" if validated else ""))
+            else:
+                rep.bad("C16.R16", fn, loc_of(e), "invalid-ignored:%s:%s" % (key, callee_short(e)), "%s reads the numeric setting %s with %s(.., default), which answers the default for any text that "
+                        "is not a number: '--pika:ini=%s=abc' and 'PIKA_%s=abc' are ignored silently (the runtime starts with the default) although the setting's other sources "
+                        "reject such text" % (fn.qname.rsplit("::", 1)[-1], key, callee_short(e), key, key.split(".", 1)[1].upper()))
+    if n16 < 6:
+        raise AnalysisBroken("C16.R16: only %d numeric settings with an environment placeholder found in the handlers" % n16)
+
     # U: used option keys
     U = []
     for Fx in (PC, CL, LC):
@@ -723,6 +804,22 @@ def run(rep, tier):
             rep.bad("C16.R5", iss, loc_of(ev), "stack-size-reader", "init_stack_size parses pika.stacks.*_size with %s (base %s), which does not accept the 0x notation that the "
                     "defaults table itself writes (%s): the resolved configuration value is dropped silently and the runtime uses a different number "
                     "than the configuration reports" % (cs, base or "10", ", ".join(sorted(set(hexy)))[:160]))
+
+    # ... and once the text has been handed to the parser, the built-in default is not an answer any more: a value that does
+    # not parse (abc, 64k) stops start-up; only a missing / empty entry falls back to the default
+    from engine.kinds import reaches as _reaches
+    dpar = [p_["name"] for p_ in iss.params][-1] if iss.params else None
+    if not dpar:
+        raise AnalysisBroken("init_stack_size: parameters not found")
+    rets = [(b, i, ev) for b, i, ev in iss.all_events() if ev.get("k") == "return" and ev.get("e") is not None and re.search(r"\b%s\b" % re.escape(dpar), T(ev["e"]))]
+    silent = [(b, i, ev) for b, i, ev in rets if any((pb == b and pi < i) or _reaches(iss, pb, b) for pb, pi, _ in parsers)]
+    if silent:
+        b, i, ev = silent[0]
+        rep.bad("C16.R5", iss, loc_of(ev), "stack-size-invalid-ignored", "init_stack_size answers '%s' after the configured text was handed to the number parser: a value that does not parse "
+                "(--pika:ini=pika.stacks.small_size=abc, PIKA_SMALL_STACK_SIZE=zz) is replaced silently by the built-in default - the configuration reports the text, the runtime "
+                "uses another size, start-up does not stop" % T(ev["e"])[:80])
+    else:
+        rep.ok("C16.R5", iss, "the built-in default is returned only before the parser is consulted (missing / empty entry): a value that does not parse is not replaced silently")
 
 
 def pre_name(pre):
